@@ -1,0 +1,22 @@
+//go:build verif
+
+package haproxy
+
+// Contracts checked by /verif/govc (comment-only file; build tag verif).
+
+// ---------------------------------------------------------------------------
+// C12 — an update that fails must not clear the pending-change markers
+
+//@ count Commit      = (haproxy.Config).Commit
+//@ count writeConfig = (*instance).writeConfig
+//@ count reload      = (*instance).Reload, (utils.QueueFacade).Add
+
+//@ func (*instance).HAProxyUpdate
+//@   props C12 C02
+//@   ensures no-commit-on-error: result != nil ==> calls(Commit) == 0
+//@   ensures commit-on-success:  result == nil && old(i.config) != nil ==> calls(Commit) == 1
+//@   ensures nil-config:         old(i.config) == nil ==> result == nil && calls(Commit) == 0 && calls(writeConfig) == 0 && calls(reload) == 0
+//@   ensures written-first:      calls(reload) > 0 ==> calls(writeConfig) == 1
+//@   ensures one-reload:         calls(reload) <= 1
+//@   ensures one-write:          calls(writeConfig) <= 1
+//@ end
